@@ -86,14 +86,16 @@ def _am():
 
 def build_cfg(c: Dict) -> Dict:
     fix = c["fix"]
+
+    def sopt(name, **kw):
+        # the per-service option and the defaults-block key are never given together: their precedence is undocumented
+        if c.get("fix_default") is None:
+            kw["fixing_duration"] = fix[name]
+        return {"type": name, "options": kw}
+
     h0 = computer(
         H0, "192.168.1.10", kind="server", start_up_duration=c["up"], shut_down_duration=c["down"],
-        services=[
-            {"type": "database-service", "options": {"fixing_duration": fix["database-service"],
-                                                     "backup_server_ip": "192.168.1.11"}},
-            {"type": "dns-server", "options": {"fixing_duration": fix["dns-server"]}},
-            {"type": "ntp-server", "options": {"fixing_duration": fix["ntp-server"]}},
-        ],
+        services=[sopt("database-service", backup_server_ip="192.168.1.11"), sopt("dns-server"), sopt("ntp-server")],
         applications=[{"type": "web-browser", "options": {"fixing_duration": fix["web-browser"]}}],
     )
     if c["nscan_via"] == "node":
@@ -466,6 +468,7 @@ def run_case(case: Dict) -> CaseResult:
             if not instant and not cands:
                 early = [p for p in pend if p.kind in ("fscan", "nscan") and p.covers(key) and p.completed is None
                          and is_tick and kt < p.earliest]
+                early.sort(key=lambda p: p.kind != "fscan")  # the more specific scan first
                 if early:
                     p = early[0]
                     res.violate(f"scan-completes-early:{p.kind}",
@@ -817,7 +820,8 @@ def enumerated_cases():
     T = ["tick"]
     interf = [["sw", "dns-server", "compromise"], ["file", "fa", "x.txt", "corrupt"], ["file", "fa", "x.txt", "scan"],
               ["sw", "dns-server", "scan"], ["folder", "fa", "scan"], ["os_scan"], ["file", "fa", "x.txt", "repair"],
-              ["sw", "dns-server", "fix"], ["folder", "fa", "restore"]]
+              ["sw", "dns-server", "fix"], ["folder", "fa", "restore"], ["power", "reset"], ["power", "shutdown"],
+              ["sw", "web-browser", "compromise"], ["folder", "fa", "corrupt"]]
     for d in DUR:
         progs = {
             "fix": (base_cfg_case(fix={n: d for n in SW}),
@@ -845,12 +849,18 @@ def enumerated_cases():
                     yield {"cfg": cfg, "ops": head + [T] * pos + [ev] + [T] * (d + 3 - pos)}
 
 
+def _straight(ops: List) -> bool:
+    """head of events followed only by ticks"""
+    i = ops.index(["tick"])
+    return all(o == ["tick"] for o in ops[i:])
+
+
 def worker(ctx: Ctx):
     cases = list(enumerated_cases())
     if ctx.tier == "quick":
-        # every straight-line program plus every 3rd interference variant
-        cases = [c for j, c in enumerate(cases) if len([o for o in c["ops"] if o != ["tick"]]) <= 3 or j % 3 == 0]
+        # every straight-line program plus every 2nd interference variant
+        cases = [c for j, c in enumerate(cases) if _straight(c["ops"]) or j % 2 == 0]
     enum_run(ctx, cases, run_case)
     ctx.extra["enumerated_family"] = len(cases)
-    n = 60 if ctx.tier == "quick" else 2500
+    n = 200 if ctx.tier == "quick" else 6000
     hyp_run(ctx, case_strategy(30), run_case, n)
